@@ -113,6 +113,15 @@ int main(int argc, char **argv) {
         parser.setDebugMode(debug_mode);
         root = parser.parseProgram();
 
+#ifdef CB_VERIF
+        // verification hook: stop after preprocessing + parsing
+        if (std::getenv("CB_VERIF_PARSE_ONLY")) {
+            std::fflush(stdout);
+            std::fflush(stderr);
+            std::_Exit(0);
+        }
+#endif
+
         if (!root) {
             std::fprintf(stderr, "Error: AST generation failed\n");
             return 1;
